@@ -114,7 +114,7 @@ class W:
 
 
 NODE_NAMES = ("n0", "n1", "m0")
-LIGHT_NODES = ("e0", "fb0")  # else-branch node of the main graph's If; branch node of the If inside the function
+LIGHT_NODES = ("e0", "fb0", "n3")  # else-branch node of the main graph's If; branch node of the If inside the function
 
 
 def enabled(w):
